@@ -10,8 +10,6 @@ import (
 
 // C38: config.File.Validate.
 
-func init() { register("config", runConfig) }
-
 func classifyConfigErr(err error) string {
 	if err == nil {
 		return "ObsOk"
